@@ -176,7 +176,22 @@ class Mon:
             self.rec.count("apply_unknown_stats_origin")  # loaded from a file the monitor knows nothing about
             return
         if sh is None and before.ndim == 1:
-            self.rec.count("apply_out_of_scope")
+            # a lone vector without statistics: its own mean is itself (the documented outcome is a warning and zeros when norm_var is
+            # off, a refusal when it is on).  Whatever comes back is float64, and the caller's vector is untouched unless in_place
+            if c.exc is None:
+                out = np.asarray(c.result)
+                self.rec.count("apply_lone_vector_without_statistics")
+                if out.dtype != np.float64 or out.shape != before.shape:
+                    self.v("apply on a lone vector without statistics returned %s %r for a %s vector of %d" % (out.dtype, out.shape, before.dtype, before.shape[0]), check="dtype", **info)
+                elif norm_var is False and np.any(out != 0):
+                    self.v("apply on a lone vector without statistics (norm_var off) is not the vector minus its own mean (0)", check="value", **info)
+                if not kw["in_place"]:
+                    if not np.array_equal(np.asarray(kw["features"]), before):
+                        self.v("apply(in_place=False) modified its input (lone vector without statistics)", check="input_modified", **info)
+                    elif before.size and np.shares_memory(out, np.asarray(kw["features"])):
+                        self.v("apply(in_place=False) returned the caller's own vector (lone vector without statistics)", check="input_modified", **info)
+            else:
+                self.rec.count("apply_out_of_scope")
             return
         vecs = _vectors(before, axis)
         if sh is None:
@@ -388,7 +403,11 @@ def run_case(case, rec, mon=None):
             try:
                 path = os.path.join(d, "s.npy")
                 insts[0].save(path)
-                loaded = P.Standardize(path, norm_var=norm_var)
+                # (loading options are passed on to the reader: the statistics may be read through a memory map of the file)
+                mm = [{}, {"mmap_mode": "r"}, {}, {"mmap_mode": "r+"}, {"mmap_mode": "c"}][case["idx"] % 5]
+                if mm:
+                    rec.count("statistics_loaded_through_a_memory_map_" + mm["mmap_mode"].replace("+", "plus"))
+                loaded = P.Standardize(path, norm_var=norm_var, **mm)
                 mon.adopt(loaded, insts[0])
                 insts.append(loaded)
                 rec.count("reloaded_instances")
@@ -409,6 +428,10 @@ def run_case(case, rec, mon=None):
                     loaded.accumulate(more)
                     differs = loaded  # no longer holds the common data set: judged by its own shadow only
                     rec.count("two_objects_loaded_from_one_file_then_one_accumulates")
+                    # ... and the file still holds what was saved: a third object loaded now has the saver's statistics
+                    loaded3 = P.Standardize(path, norm_var=norm_var)
+                    mon.adopt(loaded3, insts[0])
+                    insts.append(loaded3)
             finally:
                 for f in os.listdir(d):
                     os.unlink(os.path.join(d, f))
@@ -496,6 +519,16 @@ def run_case(case, rec, mon=None):
                 rec.count("self_standardising_calls_that_raised_before_the_judged_one")
             if bool(fresh.have_stats):
                 mon.v("have_stats is true on an instance that never accumulated, after an apply() that raised", check="have_stats", op="apply")
+        import warnings as _w
+
+        for dt in ("float64", "float32", "int32"):
+            v1 = np.array(x[0], dtype=dt)  # a lone vector (a warning and zeros when norm_var is off; refused when it is on)
+            try:
+                with _w.catch_warnings():
+                    _w.simplefilter("ignore")
+                    fresh.apply(v1) if dt != "float32" else fresh.apply(v1, -1, False)
+            except ValueError:
+                pass
         try:
             fresh.apply(x)
             x3 = np.array(np.moveaxis(x.reshape(rows, 1, F), -1, 0)); x3.setflags(write=False)
